@@ -638,6 +638,18 @@ func runC06(c *Ctx) {
 			okW := len(writes) == 2 && header != nil && sameValueModNil(writes[0].Call.Args[0], header) && !sameValueModNil(writes[1].Call.Args[0], header) && dominates(writes[0], writes[1]) &&
 				!reachAvoiding(sp, nil, func(x ssa.Instruction) bool { return x == ssa.Instruction(writes[0]) }, func(x ssa.Instruction) bool { return x == ssa.Instruction(put) })
 			c.check(okW, "R3", "sendPacket writes header then payload", p.Pos(sp.Pos()), "Write(header); Write(payload) after the prefix is set", "header and payload are not written in this order after the prefix was filled in")
+			// every payload byte the prefix counted is written: where the second write is skipped the payload is empty
+			if len(writes) == 2 {
+				if iff, truth := guardOf(writes[1]); iff != nil && dominates(writes[0], iff) {
+					z := newZWorld(p).get(sp)
+					pl := z.lenOf(writes[1].Call.Args[0], 0)
+					skipped := append(z.condFacts(iff.Cond, !truth), leq(linConst(0), pl, 0))
+					if bo, ok := iff.Cond.(*ssa.BinOp); ok && !isNilConst(bo.Y) && !isNilConst(bo.X) {
+						c.check(entails(skipped, leq(pl, linConst(0), 0)), "R3", "sendPacket skips the payload write only for an empty payload", pos(writes[1]), "not written: len(payload) == 0",
+							"the test in front of the payload write lets a non-empty payload go unwritten: the length prefix announces bytes that never follow, and the stream is out of step from there on")
+					}
+				}
+			}
 			// both come out of the packet's marshaller
 			fromMarshal := func(v ssa.Value) bool {
 				if v == nil {
